@@ -182,7 +182,23 @@ fn random_call(r: &mut Rng) -> Call {
         6 => Call::Prefix(if r.chance(1, 4) { None } else { Some(r.range(0x21, 0x7e) as u8) }),
         7 => Call::Interval(if r.chance(1, 4) { None } else { Some(r.below(65536)) }),
         8 => Call::IName(if r.chance(1, 4) { None } else { Some(name(r)) }),
-        9 => Call::Admin(if r.chance(1, 4) { None } else { Some(ascii(r)) }),
+        9 => Call::Admin(if r.chance(1, 4) {
+            None
+        } else if r.chance(1, 2) {
+            Some(ascii(r))
+        } else {
+            // the password travels as the string's own bytes: up to 16 UTF-8 bytes of anything
+            let pool = ['p', 'ä', 'ö', 'ß', 'Ж', 'я', 'ラ', '^', 'J', '9', 'é'];
+            let mut s = String::new();
+            for _ in 0..r.usize_below(17) {
+                let c = *r.pick(&pool);
+                if s.len() + c.len_utf8() > 16 {
+                    break;
+                }
+                s.push(c);
+            }
+            Some(s)
+        }),
         10 => Call::ReqI(r.below(256) as u8),
         11 => Call::Tcp,
         12 => Call::Udp(r.chance(1, 2)),
@@ -395,7 +411,7 @@ pub fn run(ctx: &mut Ctx) -> (&'static str, String, bool) {
                         calls.push(Call::IName(Some(if mask & 1 != 0 { "Rundenzähler-Süd".into() } else { "verif".into() })));
                     }
                     if mask & 8 != 0 {
-                        calls.push(Call::Admin(Some("secret".into())));
+                        calls.push(Call::Admin(Some(if mask & 2 != 0 { "pässwörd^Jя".into() } else { "secret".into() })));
                     }
                     if mask & 16 != 0 {
                         calls.push(Call::ReqI(7));
